@@ -3,9 +3,8 @@
 (* the tool holding a debug credential) with a Dolev-Yao intruder.  Everything here is fixed by the silicon and  *)
 (* the protocol definition; SPSDK only plays the host.                                                           *)
 (*                                                                                                               *)
-(* Terms are symbolic.  A signature is the pair [key, msg]: it verifies only under that key and only for that    *)
-(* message.  A credential (DC) on the wire is [id, intact]: intact = FALSE stands for "some signed field was     *)
-(* altered after the root-of-trust key signed it" (the signature term is the one of the original).               *)
+(* Terms and the device's acceptance automaton (CheckDcSignature, CheckRotHash, CheckDcBinding,                 *)
+(* CheckResponseSignature) are in DatTerms; the byte layouts in DatLayout.                                       *)
 (*                                                                                                               *)
 (*   DC  = Cat(<fields of the protocol version in anchored order>, Sig(rotk, all preceding bytes))               *)
 (*   DAR = Cat(DC, beacon, [uuid], Sig(dck, Cat(DC, beacon, [uuid], challenge)))        [uuid]: ECC versions 2.x *)
@@ -13,48 +12,7 @@
 (* In the RSA versions 1.0 / 1.1 the UUID is NOT part of the response: the response is bound to a device only    *)
 (* through the challenge and through the UUID inside the credential.  That is the protocol, not a defect;        *)
 (* BoundToDevice is therefore stated for the ECC versions only.                                                  *)
-EXTENDS Naturals, Sequences, FiniteSets, TLC
-CONSTANTS Devices,     \* device identities = UUIDs, e.g. {"d1", "d2"}
-          Chals,       \* challenge vectors
-          Beacons      \* authentication beacon values
-
-\* ------------------------------------------------------------------ the world of credentials
-\* cA : the host's credential, issued by the OEM root of trust, for device d1 or for any device (wildcard, uuid = 0)
-\* cB : a second credential of the same root of trust with the SAME debug key but other constraints (more rights)
-\* cI : a genuine credential of the intruder for HIS device d2 - he owns its debug key
-\* cE : a credential the intruder made himself: own root keys, own debug key, uuid = 0
-Creds == {"cA", "cB", "cI", "cE"}
-HostCreds == {"cA", "cB"}
-IntruderCreds == {"cI", "cE"}
-CredUuid(c, wild) == CASE c \in HostCreds -> IF wild THEN "any" ELSE "d1"
-                       [] c = "cI" -> "d2"
-                       [] OTHER -> "any"
-CredRot(c) == IF c = "cE" THEN "evil" ELSE "oem"
-CredDck(c) == IF c \in HostCreds THEN "dckHost" ELSE "dckIntruder"
-Fused == "oem"                                     \* root-of-trust hash burnt into every device of the model
-
-DcTerm(c, intact) == [id |-> c, intact |-> intact]
-Sig(k, m) == [key |-> k, msg |-> m]
-UuidPart(binds, u) == IF binds THEN u ELSE "-"
-\* the response the holder of credential c builds for (device uuid u, challenge ch) with beacon b
-Resp(binds, c, b, u, ch) ==
-  [dc |-> DcTerm(c, TRUE), beacon |-> b, uuid |-> UuidPart(binds, u),
-   sig |-> Sig(CredDck(c), <<DcTerm(c, TRUE), b, UuidPart(binds, u), ch>>)]
-
-\* ------------------------------------------------------------------ the device's acceptance automaton
-\* Returns the name of the first check that fails, or "Accept".  d = the device's own UUID, ch = ITS outstanding challenge.
-CheckDcSignature(r) == r.dc.intact
-CheckRotHash(r) == CredRot(r.dc.id) = Fused
-CheckDcBinding(r, d, wild) == CredUuid(r.dc.id, wild) \in {"any", d}
-CheckResponseSignature(r, d, ch, binds) ==
-  /\ r.uuid = UuidPart(binds, d)
-  /\ r.sig = Sig(CredDck(r.dc.id), <<r.dc, r.beacon, UuidPart(binds, d), ch>>)      \* recomputed from the device's own view
-Verdict(r, d, ch, binds, wild) ==
-  IF ~CheckDcSignature(r) THEN "CheckDcSignature"
-  ELSE IF ~CheckRotHash(r) THEN "CheckRotHash"
-  ELSE IF ~CheckDcBinding(r, d, wild) THEN "CheckDcBinding"
-  ELSE IF ~CheckResponseSignature(r, d, ch, binds) THEN "CheckResponseSignature"
-  ELSE "Accept"
+EXTENDS DatTerms
 
 \* ------------------------------------------------------------------ the protocol
 VARIABLES binds,      \* TRUE = ECC protocol version (UUID in the response), FALSE = RSA; fixed per behaviour
@@ -81,12 +39,6 @@ HostRespond(d, c, b) == /\ session[d] # "none"
                         /\ net' = net \cup {Resp(binds, c, b, d, session[d])}
                         /\ built' = built \cup {<<c, b, UuidPart(binds, d), session[d]>>}
                         /\ UNCHANGED <<binds, wild, session, issued, accepted, nrej>>
-\* the intruder owns the debug key of cI and cE and signs what he likes, whenever he likes
-Forgeries == {Resp(binds, c, b, u, ch) : c \in IntruderCreds, b \in Beacons, u \in Devices, ch \in Chals}
-\* ... and rewrites every unsigned component of a response he has seen (the signature term stays).  Splicing a spliced
-\* response gives nothing new (all three components are overwritten), so one level is the whole closure.
-Splice(r, c, i, b, u) == [r EXCEPT !.dc = DcTerm(c, i), !.beacon = b, !.uuid = u]
-Splices(r) == {Splice(r, c, i, b, UuidPart(binds, u)) : c \in Creds, i \in BOOLEAN, b \in Beacons, u \in Devices}
 Deliver(d, r) ==
   /\ session[d] # "none"
   /\ IF Verdict(r, d, session[d], binds, wild) = "Accept"
@@ -98,8 +50,8 @@ Deliver(d, r) ==
 DoChallenge == \E d \in Devices : Challenge(d)
 DoHostRespond == \E d \in Devices, c \in HostCreds, b \in Beacons : HostRespond(d, c, b)
 DeliverSeen == \E d \in Devices, r \in net : Deliver(d, r)                                   \* relay / replay
-DeliverSpliced == \E d \in Devices, r0 \in net : \E r \in Splices(r0) \ {r0} : Deliver(d, r)
-DeliverForged == \E d \in Devices, r0 \in Forgeries : \E r \in Splices(r0) \cup {r0} : Deliver(d, r)
+DeliverSpliced == \E d \in Devices, r0 \in net : \E r \in Splices(binds, r0) \ {r0} : Deliver(d, r)
+DeliverForged == \E d \in Devices, r0 \in Forgeries(binds) : \E r \in Splices(binds, r0) \cup {r0} : Deliver(d, r)
 Next == DoChallenge \/ DoHostRespond \/ DeliverSeen \/ DeliverSpliced \/ DeliverForged
 Spec == Init /\ [][Next]_vars
 
